@@ -55,6 +55,8 @@ class C16(Prop):
         L.append(("counts", lambda xs: sorted(S(el.counts(xs, ctx))) == sorted([k, xs.count(k)] for k in set(xs))))
         L.append(("group consecutive", lambda xs: S(el.group_consecutive(xs, ctx)) == [list(g) for _, g in itertools.groupby(xs)]))
         L.append(("grade up / down are the stable sorting permutations", lambda xs: S(el.grade_up(xs, ctx)) == sorted(range(len(xs)), key=xs.__getitem__) and S(el.grade_down(xs, ctx)) == sorted(range(len(xs)), key=xs.__getitem__, reverse=True)))
+        L.append(("first k items / slices are the list's own slices (k = 0 included)", lambda xs: all(S(el.zero_slice(xs, k, ctx)) == xs[:k] for k in range(0, len(xs) + 2)) and all(S(el.index(xs, [a, b], ctx)) == xs[a:b] for a in range(0, 3) for b in range(0, 4))))
+        L.append(("wrap by a list of sizes (a zero size gives an empty chunk)", lambda xs: S(el.wrap(xs, [0, len(xs)], ctx)) == [[], xs] and S(el.wrap(xs, [1, 0], ctx)) == [xs[:1], []]))
         L.append(("reduce by + is the fold", lambda xs: not xs or S(H.foldl(add, xs, ctx=ctx)) == sum(xs)))
         L.append(("cumulative reduce", lambda xs: not xs or S(H.scanl(add, xs, ctx)) == list(itertools.accumulate(xs))))
         return L
